@@ -331,6 +331,18 @@ fn exec(op: &Op) -> String {
         }
         "depend.new" => {
             let Some(s) = a(0) else { return "BAD-UTF8".into() };
+            // `str::parse::<Depend>()` is the same function as `Depend::new`
+            {
+                let (x, y) = (Depend::new(s), s.parse::<Depend>());
+                let same = match (&x, &y) {
+                    (Ok(p), Ok(q)) => p == q,
+                    (Err(e), Err(f)) => std::mem::discriminant(e) == std::mem::discriminant(f),
+                    _ => false,
+                };
+                if !same {
+                    return "FROMSTR-DIFFERS-FROM-NEW".into();
+                }
+            }
             match Depend::new(s) {
                 Ok(d) => {
                     // halves parsed directly must equal the exposed parts
